@@ -1,7 +1,9 @@
 // stub of the `redis` crate: the pub/sub connection delivers the messages captured from the Go station
 // (file named by VERIF_S2D_FILE, one hex-encoded payload per line), then signals completion and idles.
 // A line may start with "@<seconds> ": the harness's logical clock (CLOCK_S, read by the stub util::precise_time_ns) is set to
-// that value before the message is delivered; "@<seconds>" alone delivers an empty payload (time passes, nothing is said).
+// that value before the message is delivered; "@<seconds>" alone delivers an empty payload (time passes, nothing is said);
+// "@<seconds> !" likewise, and marks the step as "every session the detector tracks forwards a packet now" (PACKET_STEPS, acted
+// on by the harness main loop through SessionTracker::update_session).
 use std::sync::atomic::{AtomicBool, Ordering};
 pub static DONE: AtomicBool = AtomicBool::new(false);
 #[derive(Debug)] pub struct RedisError(pub String);
@@ -15,6 +17,8 @@ impl Client {
 pub struct Connection;
 impl Connection { pub fn as_pubsub(&mut self) -> PubSub { PubSub::new() } }
 pub static CLOCK_S: std::sync::atomic::AtomicU64 = std::sync::atomic::AtomicU64::new(0);
+pub static PACKET_STEPS: std::sync::Mutex<Vec<usize>> = std::sync::Mutex::new(Vec::new());
+pub fn is_packet_step(n: usize) -> bool { PACKET_STEPS.lock().unwrap().contains(&n) }
 pub struct PubSub { msgs: Vec<(Option<u64>, Vec<u8>)>, next: usize }
 fn parse_line(l: &str) -> (Option<u64>, Vec<u8>) {
     let l = l.trim();
@@ -30,7 +34,11 @@ impl PubSub {
     fn new() -> PubSub {
         let path = std::env::var("VERIF_S2D_FILE").expect("VERIF_S2D_FILE");
         let txt = std::fs::read_to_string(path).expect("read s2d file");
-        PubSub { msgs: txt.lines().map(|l| parse_line(l)).collect(), next: 0 }
+        {
+            let mut ps = PACKET_STEPS.lock().unwrap();
+            for (i, l) in txt.lines().enumerate() { if l.trim().ends_with('!') { ps.push(i + 1); } }
+        }
+        PubSub { msgs: txt.lines().map(|l| parse_line(l.trim().trim_end_matches('!'))).collect(), next: 0 }
     }
     pub fn subscribe(&mut self, _c: &str) -> RedisResult<()> { Ok(()) }
     pub fn get_message(&mut self) -> RedisResult<Msg> {
